@@ -279,6 +279,7 @@ fn measure_point(rep: &Report, dir: &'static str, via: &'static str, size: usize
 pub fn run(rep: &'static Report) {
     let seed = rep.seed;
     rep.set_rule("E-GRID + MON: both directions x {hooked loop at production chunk size, key mode, password mode} x input sizes n*cs+d (n in {0,1,2,3,4,8,16,64}, thorough adds 1024 and 16384 = 1 GiB; d in {0,1}) x {full reads / 64 KiB chunks, 1 KiB pieces / 1 KiB chunks}, from non-allocating synthetic sources into counting sinks; peak live heap per call from the counting allocator and the read/write lag at every chunk completion. distinct non-trivial = distinct (direction, via, size, piece) points with >= 2 chunks");
+    rep.rule_add("Input as a regular FILE with stdout blocked: the input descriptor's offset (/proc/PID/fdinfo) once the program rests in its blocked write, all four commands, 48-chunk files.");
     rep.rule_add("CLI streams through stdin/stdout, FIFO, -o fresh/pre-existing (growth polled), non-blocking stdout with a stalled reader; streams of 16 vs 256/1024 chunks of pairwise different lengths.");
     rep.assume("extrapolation beyond the largest size rests on the loop state being independent of the chunk index; the synthetic decrypt source allocates one record at a time (constant, included in the measured peak)");
     let ids = idents(seed);
@@ -488,6 +489,7 @@ pub fn run(rep: &'static Report) {
     rep.sample(json!({"dir":"enc","via":"loop","size":4*CS,"piece":CS,"expect":"peak heap equals that of 2*CS and 64*CS within 4 KiB; lag <= 1 chunk"}));
 
     cli_level(rep);
+    cli_file_input_position(rep);
     rep.set_exhaustive(true);
 }
 
@@ -655,6 +657,118 @@ fn cli_stream_opts(args: &[&str], env: &[(&str, &str)], cwd: &std::path::Path, i
     }
     let code = if libc::WIFEXITED(status) { libc::WEXITSTATUS(status) } else { -1 };
     Ok(CliRun { maxrss_kib: ru.ru_maxrss, out_when_paused: paused.0, sent_when_paused: paused.1, out_total: outn.load(std::sync::atomic::Ordering::SeqCst), code, sent_when_reader_woke: woke.load(std::sync::atomic::Ordering::SeqCst) })
+}
+
+/// Input named as a regular FILE, stdout a pipe that nobody reads: once the program has come to rest in its blocked write,
+/// the read position of its input descriptor (from /proc/PID/fdinfo) says how much input it has consumed while at most
+/// one pipe buffer of output (one chunk) has left it. Allowed: the chunks written or being written, and two further ones.
+fn cli_file_input_position(rep: &Report) {
+    use rayon::prelude::*;
+    use std::process::{Command, Stdio};
+    let seed = rep.seed;
+    const CS: usize = 65536;
+    const NCH: usize = 48;
+    let alice = Party::new(seed, "alice", "alicepw");
+    let bob = Party::new(seed, "bob", "bobpw");
+    let kr = crate::fx::keyring(&[(&alice, true), (&bob, true)]);
+    let p = plaintext(seed ^ 0xb1, NCH * CS);
+    let salt = derive32(seed, "c11-pos-salt");
+    let chunking = vec![CS; NCH];
+    let pf = r::write_pass_file_with_key(&r::pass_key(b"clipw", &salt), &salt, &p, &chunking);
+    let kf = r::write_key_file(&alice.sk, &bob.pk, &derive32(seed, "c11-pos-e"), &derive32(seed, "c11-pos-p"), &p, &chunking).unwrap();
+    let jobs: Vec<(&str, Vec<&str>, &str, &Vec<u8>, usize)> = vec![
+        ("encrypt", vec!["encrypt", "in.dat", "-t", "bob", "-f", "alice", "-k", "kr.txt", "--env-pass"], "alicepw", &p, 0),
+        ("decrypt", vec!["decrypt", "in.dat", "-t", "bob", "-k", "kr.txt", "--env-pass"], "bobpw", &kf, 132),
+        ("pass-encrypt", vec!["password", "encrypt", "in.dat", "--env-pass"], "clipw", &p, 0),
+        ("pass-decrypt", vec!["password", "decrypt", "in.dat", "--env-pass"], "clipw", &pf, 36),
+    ];
+    jobs.par_iter().for_each(|(name, args, pw, data, hdr)| {
+        rep.eval(1);
+        rep.nontrivial(format!("cli-file-position-{}", name).as_bytes());
+        let attempt = || -> Result<Option<u64>, String> {
+            let sc = Scratch::new();
+            sc.write("kr.txt", kr.as_bytes());
+            sc.write("in.dat", data);
+            let inpath = std::fs::canonicalize(sc.0.join("in.dat")).map_err(|e| e.to_string())?;
+            let mut child = Command::new(KESTREL).args(args).env_clear().env("KESTREL_PASSWORD", pw).current_dir(&sc.0).stdin(Stdio::null()).stderr(Stdio::null()).stdout(Stdio::piped()).spawn().map_err(|e| format!("spawn: {}", e))?;
+            let pid = child.id();
+            let pipe_cap = {
+                use std::os::unix::io::AsRawFd;
+                unsafe { libc::fcntl(child.stdout.as_ref().unwrap().as_raw_fd(), libc::F_GETPIPE_SZ) }
+            };
+            let read_pos = || -> Option<u64> {
+                for e in std::fs::read_dir(format!("/proc/{}/fd", pid)).ok()? {
+                    let e = e.ok()?;
+                    if std::fs::read_link(e.path()).ok().as_deref() == Some(inpath.as_path()) {
+                        let info = std::fs::read_to_string(format!("/proc/{}/fdinfo/{}", pid, e.file_name().to_string_lossy())).ok()?;
+                        return info.lines().find_map(|l| l.strip_prefix("pos:")).and_then(|v| v.trim().parse().ok());
+                    }
+                }
+                None
+            };
+            // wait until the position has been the same (and non-zero) for 400 ms: the program rests in its blocked write
+            let t0 = std::time::Instant::now();
+            let mut last: Option<u64> = None;
+            let mut since = std::time::Instant::now();
+            let mut settled = None;
+            while t0.elapsed().as_secs() < 15 {
+                std::thread::sleep(std::time::Duration::from_millis(20));
+                let now = read_pos();
+                if now != last {
+                    last = now;
+                    since = std::time::Instant::now();
+                } else if now.map(|v| v > 0).unwrap_or(false) && since.elapsed().as_millis() >= 400 {
+                    settled = now;
+                    break;
+                }
+                if let Ok(Some(_)) = child.try_wait() {
+                    break;
+                }
+            }
+            // drain and reap
+            let mut so = child.stdout.take().unwrap();
+            let mut sinkbuf = vec![0u8; 1 << 16];
+            let mut total = 0usize;
+            loop {
+                match so.read(&mut sinkbuf) {
+                    Ok(0) | Err(_) => break,
+                    Ok(n) => total += n,
+                }
+            }
+            let st = child.wait().map_err(|e| e.to_string())?;
+            if !st.success() {
+                return Err(format!("kestrel {} FILE to a stdout pipe fails (exit {:?}) after {} output bytes", name, st.code(), total));
+            }
+            if pipe_cap != 65536 {
+                return Ok(None);
+            }
+            Ok(settled)
+        };
+        // records of output that fit the pipe: none completely for the encryptors (65568 > 65536), one for the decryptors;
+        // the record being written, and two further ones
+        let in_rec = if *hdr == 0 { CS } else { CS + 32 };
+        let allowed = (*hdr + 4 * in_rec) as u64;
+        let verdict = match attempt() {
+            Ok(Some(pos)) if pos > allowed => attempt(),
+            other => other,
+        };
+        match verdict {
+            Ok(Some(pos)) => {
+                rep.extra(&format!("cli_file_input_position_{}", name), json!({"input_offset_while_stdout_blocked":pos,"allowed":allowed}));
+                if pos > allowed {
+                    rep.violation(
+                        &format!("cli-file-position/{}", name),
+                        json!({"kind":"cli-stall","cmd":name,"file-position":true}),
+                        format!("kestrel {} in.dat (a regular file of {} chunks) with nobody reading its stdout pipe: at most 65536 bytes of output have left the program, yet its input descriptor stands at offset {} = {:.1} chunks (allowed: written or being written + 2 further = {} bytes)", name, NCH, pos, pos as f64 / in_rec as f64, allowed),
+                    );
+                }
+            }
+            Ok(None) => {
+                rep.extra(&format!("cli_file_input_position_{}", name), json!("not judged: the program never came to rest in a blocked write, or the pipe buffer is not 64 KiB"));
+            }
+            Err(e) => rep.violation(&format!("cli-file-position/{}", name), json!({"kind":"cli-stall","cmd":name,"file-position":true}), e),
+        }
+    });
 }
 
 fn cli_level(rep: &Report) {
